@@ -664,6 +664,12 @@ func checkAccessorPair(w *World, r *Report, a *accessor, storage string, arrN in
 					r.Fail("bits.frame", fnS, a.Field+" clobbers "+other, posS,
 						fmt.Sprintf("setter of %s (%s) changes %s bit %d, which belongs to field %s: new value %s", a.Field, lay, cell, b, other, v.B[b]),
 						map[string]any{"cell_after_msb_first": v.String()})
+				} else if cell == "recv.Len" || cell == "recv.Iei" {
+					// "a setter changes no bit outside its own field: ... and its identifier and length keep their values"
+					frameOK = false
+					r.Fail("bits.frame", fnS, a.Field+" changes "+strings.TrimPrefix(cell, "recv."), posS,
+						fmt.Sprintf("setter of %s (%s) changes bit %d of the element's %s for some values: new value %s", a.Field, lay, b, map[string]string{"recv.Len": "length", "recv.Iei": "identifier"}[cell], trunc(v.B[b].Short(5), 80)), nil)
+					break
 				} else {
 					r.Note("observation: %s changes undocumented bit %d of %s", fnS, b, cell)
 				}
